@@ -55,6 +55,10 @@ def make_case(rng, i):
         tgt = rng.choice(sids)
         c.update(start=tgt, start_expr=vx(tgt))
     steps = [c]
+    if not mixin and rng.random() < 0.1:
+        # a construction of the same class over a bare model that is REJECTED (names missing) comes first:
+        # it must store nothing and run nothing
+        steps.insert(0, {"op": "other", "action": "construct_incomplete"})
     hist = gen.gen_history(rng, spec, rng.randint(3, 12), p_unknown=0.03)
     n_react = rng.choice([0, 0, 1, 2, 3])
     n_restart = rng.choice([0, 1, 1, 2, 3]) if not mixin else 0
@@ -98,7 +102,8 @@ def signature(case, ck, log, fault):
 
 
 def plan(tier, seed):
-    return F.std_plan(tier, seed, 4800, 50000) + [{"untouched": True, "seed": seed, "count": 200 if tier == "quick" else 4000}]
+    return F.std_plan(tier, seed, 4800, 50000) + [{"untouched": True, "seed": seed, "count": 200 if tier == "quick" else 4000},
+                                                  {"engine": True, "seed": seed, "count": 60 if tier == "quick" else 600}]
 
 
 UNTOUCHED_SRC = '''
@@ -202,7 +207,89 @@ def run_untouched(desc):
             "violations": violations[:2]}
 
 
+ENGINE_SRC = '''
+class M(StateMachine):
+    a = State(initial=True)
+    b = State()
+    go = a.to(b) | b.to(a)
+    def on_enter_state(self, state):
+        LOG.append(("sm", state.id))
+
+class SyncL:
+    def on_enter_state(self, state):
+        LOG.append(("syncL", state.id))
+
+class AsyncL:
+    async def on_enter_state(self, state):
+        LOG.append(("asyncL", state.id))
+'''
+
+
+def run_engine_per_instance(desc):
+    """Instances of ONE class that differ in whether their listeners / model bring coroutine callbacks:
+    each is activated the way its own callbacks require (at construction when all is synchronous; by
+    the first event or explicit activation, with the coroutine awaited, otherwise) in any creation order."""
+    import asyncio
+    import random
+    import warnings
+
+    from statemachine import State, StateMachine
+
+    rng = random.Random(desc["seed"] * 13 + 1)
+    counters = {"engine_choice_sequences": 0}
+    violations, sigs = [], set()
+    for _ in range(desc["count"]):
+        log = []
+        ns = {"State": State, "StateMachine": StateMachine, "LOG": log, "__name__": "vmon_c11e"}
+        exec(compile(ENGINE_SRC, "<c11-engine>", "exec"), ns)
+        order = [rng.choice(["sync", "syncL", "asyncL"]) for _ in range(rng.randint(2, 4))]
+        problems = []
+        with warnings.catch_warnings():
+            warnings.simplefilter("ignore")
+            for k, kind in enumerate(order):
+                del log[:]
+                lst = {"sync": [], "syncL": [ns["SyncL"]()], "asyncL": [ns["AsyncL"]()]}[kind]
+                try:
+                    sm = ns["M"](listeners=lst)
+                    want0 = [("sm", "a")] + ([("syncL", "a")] if kind == "syncL" else [])
+                    if kind != "asyncL":
+                        if sorted(log) != sorted(want0):
+                            problems.append(f"#{k} {kind}: after construction callbacks {log}, expected {want0}")
+                        if sm.current_state.id != "a":
+                            problems.append(f"#{k} {kind}: not activated at construction")
+                    else:
+                        if log:
+                            problems.append(f"#{k} {kind}: callbacks at construction {log} (coroutine callbacks need the loop)")
+                        explicit = rng.random() < 0.5
+                        if explicit:
+                            res = sm.activate_initial_state()
+                            if asyncio.iscoroutine(res):
+                                asyncio.run(res)
+                            if sorted(log) != [("asyncL", "a"), ("sm", "a")]:
+                                problems.append(f"#{k} {kind}: explicit activation ran {log}")
+                    init_seen = list(log)
+                    del log[:]
+                    sm.go()
+                    want = [("sm", "b")] + ([(kind, "b")] if kind != "sync" else [])
+                    got = [x for x in log if x[1] == "b"]
+                    if sorted(got) != sorted(want) or sm.current_state.id != "b":
+                        problems.append(f"#{k} {kind}: after go callbacks {log}, state {sm.current_state.id}; expected {want}")
+                    if kind == "asyncL" and ("asyncL", "a") not in log + init_seen:
+                        problems.append(f"#{k} {kind}: initial enter of the coroutine listener never ran ({init_seen} + {log})")
+                except Exception as err:  # noqa: BLE001
+                    problems.append(f"#{k} {kind}: {type(err).__name__}: {err}"[:200])
+        counters["engine_choice_sequences"] += 1
+        sigs.add(F.h(tuple(order)))
+        if problems:
+            violations.append({"mechanism": "engine-not-chosen-per-instance", "rule": "C11.initial-activation",
+                               "detail": f"creation order {order}: " + "; ".join(problems)[:500], "witness": {"source": ENGINE_SRC, "order": order}})
+    return {"evaluations": counters["engine_choice_sequences"], "signatures": sorted(sigs), "samples": [], "counters": counters,
+            "violations": violations[:2]}
+
+
 def run_shard(desc):
+    if desc.get("engine"):
+        return run_engine_per_instance(desc)
     if desc.get("untouched"):
         return run_untouched(desc)
     return F.explore(desc, make_case, owns, signature)
